@@ -839,8 +839,26 @@ func (t *transpiler) evaluate(statement parser.Statement) error {
 			return fmt.Errorf("statement is not an expression (%v)", statement)
 		}
 		_, err := t.evaluateExpression(expression, false)
+
+		// An expression statement which emits no code must not leave its block empty.
+		if err == nil && emitsNoCode(expression) {
+			err = t.converter.Nop()
+		}
 		return err
 	}
+}
+
+// emitsNoCode reports whether the evaluation of the expression adds nothing to the script.
+func emitsNoCode(expression parser.Expression) bool {
+	switch expression.StatementType() {
+	case parser.STATEMENT_TYPE_BOOL_LITERAL, parser.STATEMENT_TYPE_INT_LITERAL, parser.STATEMENT_TYPE_STRING_LITERAL, parser.STATEMENT_TYPE_VAR_EVALUATION:
+		return true
+	case parser.STATEMENT_TYPE_GROUP:
+		return emitsNoCode(expression.(parser.Group).Child())
+	case parser.STATEMENT_TYPE_ITOA:
+		return emitsNoCode(expression.(parser.Itoa).Value())
+	}
+	return false
 }
 
 func (t *transpiler) evaluateExpression(expression parser.Expression, valueUsed bool) (expressionResult, error) {
